@@ -122,7 +122,7 @@ func c08Ops(rt *rapid.T, cols []model.Col, db *model.DB, nextRid *int64, n int) 
 	}
 	for len(ops) < n {
 		direct := rapid.IntRange(0, 2).Draw(rt, "direct") == 0
-		kind := rapid.SampledFrom([]string{"insert", "insert", "insert", "insert400", "insert401", "update", "update400", "update401", "wrongkind", "intrange", "updwrong"}).Draw(rt, "opkind")
+		kind := rapid.SampledFrom([]string{"insert", "insert", "insert", "insert400", "insert401", "update", "update400", "update401", "wrongkind", "intrange", "updwrong", "delete"}).Draw(rt, "opkind")
 		op := c08Op{Comment: kind}
 		switch kind {
 		case "insert", "insert400", "insert401":
@@ -133,6 +133,13 @@ func c08Ops(rt *rapid.T, cols []model.Col, db *model.DB, nextRid *int64, n int) 
 			}
 			*nextRid++
 			op.Stmt = model.Stmt{Kind: "insert", Table: c08Table, Rows: [][]model.Val{row}}
+		case "delete":
+			// a deleted row's neighbours must keep reading back exactly
+			if len(t.Rows) == 0 {
+				continue
+			}
+			lit := model.Int(t.Rows[rapid.IntRange(0, len(t.Rows)-1).Draw(rt, "deltarget")].Vals[0].(int64))
+			op.Stmt = model.Stmt{Kind: "delete", Table: c08Table, Where: &model.Cond{Or: [][]model.Cmp{{{L: model.Operand{Col: cols[0].Name}, Op: "=", R: model.Operand{Lit: &lit}}}}}}
 		case "update", "update400", "update401":
 			if len(t.Rows) == 0 {
 				continue
@@ -383,6 +390,21 @@ func c08Run(c c08Case, st *vlib.Stats) string {
 		return "after crash and recovery: " + msg
 	}
 	reloads++
+	// and once more from the file alone: what recovery wrote back must read the same
+	if err := eng.Shutdown(); err != nil {
+		return "shutdown after recovery failed: " + err.Error()
+	}
+	eng.Sess.RelationService = nil
+	eng, err = mk.Start(dir)
+	if err != nil {
+		return "restart after recovery failed: " + err.Error()
+	}
+	if err := eng.Exec("USE " + DBName); err != nil {
+		return "USE after the second restart failed: " + err.Error()
+	}
+	if msg := CompareAll(eng, m, nil); msg != "" {
+		return "after crash, recovery and another clean restart: " + msg
+	}
 	var labels []string
 	for k := range kinds {
 		labels = append(labels, "op-"+k)
